@@ -124,9 +124,62 @@ class LineHooks(Hooks):
             self._all_refkeys = ks
         return ks
 
+    def init_default(self, cls, attr):
+        """(True, value) when the __init__ of the class gives the instance
+        attribute `attr` a constant / empty-container initial value that does
+        not depend on the arguments (self._cache = {}, self._seen = set(),
+        self._queue = []): an abstract object that does not declare the
+        attribute has that value"""
+        key = (cls, attr)
+        memo = self.__dict__.setdefault("_init_defaults", {})
+        if key not in memo:
+            import ast as _a
+            found = (False, None)
+            init = cls.find_method("__init__") if hasattr(
+                cls, "find_method") else None
+            if init is not None:
+                vals = []
+                for n in _a.walk(init.node):
+                    if isinstance(n, _a.Assign) and len(n.targets) == 1 and \
+                            isinstance(n.targets[0], _a.Attribute) and \
+                            n.targets[0].attr == attr and \
+                            isinstance(n.targets[0].value, _a.Name) and \
+                            n.targets[0].value.id == init.self_name:
+                        vals.append(n.value)
+                if len(vals) == 1:
+                    v = vals[0]
+                    if isinstance(v, _a.Constant):
+                        found = (True, ("const", v.value))
+                    elif isinstance(v, (_a.List, _a.Dict, _a.Set)) and not (
+                            getattr(v, "elts", None) or
+                            getattr(v, "keys", None)):
+                        found = (True, ("new", type(v).__name__.lower()))
+                    elif isinstance(v, _a.Call) and \
+                            isinstance(v.func, _a.Name) and \
+                            v.func.id in ("set", "dict", "list") and \
+                            not v.args and not v.keywords:
+                        found = (True, ("new", v.func.id))
+            memo[key] = found
+        ok, spec_ = memo[key]
+        if not ok:
+            return False, None
+        if spec_[0] == "const":
+            return True, spec_[1]
+        return True, {"list": list, "dict": dict, "set": set}[spec_[1]]()
+
     def getattr(self, ev, base, attr):
         """generated accessors the rules did not spell out: a FIELD_ALIAS
         name reads the aliased field; `__dict__` is the instance dictionary"""
+        if isinstance(base, Abs) and attr not in base.attrs and \
+                base.cls is not None and hasattr(base.cls, "mro") and \
+                attr.startswith("_") and not attr.startswith("__"):
+            ok, v = self.init_default(base.cls, attr)
+            if ok and attr not in ("_data", "_datatype", "_refs", "_gfa",
+                                   "_records", "_version", "_vlevel"):
+                # a private state attribute the rule did not declare: as the
+                # constructor leaves it (kept on the object from now on)
+                base.attrs[attr] = v
+                return v
         if isinstance(base, Abs) and attr not in base.attrs and \
                 base.cls is not None and hasattr(base.cls, "mro"):
             if attr == "__dict__":
